@@ -37,6 +37,7 @@ Reset(r) ==
   /\ tmp' = [t \in TraceThreads |-> 0]
   /\ flag' = [o \in Objects |-> FALSE]
   /\ idx' = [o \in Objects |-> "stale"]
+  /\ ilock' = [o \in Objects |-> -1]
   /\ hist' = <<>>
   /\ bad' = {}
 
@@ -51,6 +52,7 @@ TraceInit ==
   /\ tmp = [t \in TraceThreads |-> 0]
   /\ flag = [o \in Objects |-> FALSE]
   /\ idx = [o \in Objects |-> "stale"]
+  /\ ilock = [o \in Objects |-> -1]
   /\ hist = <<>>
   /\ bad = {}
 
